@@ -235,6 +235,14 @@ class Check:
             info[which] = {"function": what, "active": False, "reason": why}
             print("NOTE: property=%s translation tie for %s is inactive on this tree (translator: %s); "
                   "the correspondence run is the only tie for it in this run" % (self.prop, what, why), flush=True)
+            # the props file still builds against the stub (its theorems are stated under `understood = true`), and other
+            # functions tied in the same file (per-function flags) are still checked
+            if which in getattr(Check, "SRC_TIES_PARTIAL", ()):
+                ok, _ = self.coq_build([target])
+                if ok:
+                    rest = [t for t in thms if t not in getattr(Check, "SRC_TIES_BASE", {}).get(which, thms)]
+                    if rest:
+                        self.print_assumptions([mod], ["%s.%s" % (mod, t) for t in rest])
             return False
         ok, _ = self.coq_build([target])
         if ok:
@@ -413,3 +421,80 @@ def generic_replay(ck, mod, data):
     same = mod.agree(m, i) if hasattr(mod, "agree") else (m == i)
     print("REPLAY: " + ("agree now" if same else "still disagree"))
     return 0 if same else 1
+
+
+# --- appended (builder B9): translation ties for `impl Commands` (C15) and `is_true` (C06); see lib/gen/registry_gen.py,
+# lib/gen/cond_gen.py, coq/theories/RegistryGenTie.v, coq/theories/CondGenTie.v
+Check.SRC_TIES.update({
+    "registry": ("GenRegistryFn.v", "gen_registry_understood", "props/SrcRegistry.vo", "DSP.SrcRegistry",
+                 ["Src_registry_set", "Src_registry_set_res", "Src_registry_get", "Src_registry_exists",
+                  "Src_registry_get_for_use", "Src_registry_names", "Src_registry_remove"],
+                 "duckscript/src/types/command.rs::Commands::{set, get, exists, get_for_use, get_all_command_names, remove}"),
+    "cond": ("GenCondFn.v", "gen_cond_understood", "props/SrcCond.vo", "DSP.SrcCond",
+             ["Src_cond_is_true", "Src_cond_is_true_rule"],
+             "duckscript_sdk/src/utils/condition.rs::is_true"),
+})
+
+
+# --- appended (builder B8): the REST of duckscript/src/parser.rs is translated too (lib/gen/parser_gen.py ->
+# coq/generated/GenParserRest.v, proofs coq/theories/ParserGenTie2.v, wrappers appended to coq/props/SrcParser.v).
+# The theorem names join SRC_TIES["parser"].  Every function has its OWN flag in GenParserRest.v: a function the
+# translator does not understand any more gets a stub, its theorem (stated under `flag = true`) holds vacuously, and
+# source_tie("parser") then reports exactly that function's tie as inactive (NOTE + evidence) and does not count its
+# theorem as a discharged obligation.  Nothing else of source_tie changes.
+PARSER_REST_TIES = [
+    ("gen_parse_next_argument_understood", "parse_next_argument", ["Src_parser_parse_next_argument"]),
+    ("gen_parse_arguments_with_options_understood", "parse_arguments_with_options", ["Src_parser_parse_arguments_with_options"]),
+    ("gen_parse_arguments_understood", "parse_arguments", ["Src_parser_parse_arguments"]),
+    ("gen_reparse_arguments_understood", "reparse_arguments", ["Src_parser_reparse_arguments"]),
+    ("gen_find_label_understood", "find_label", ["Src_parser_find_label"]),
+    ("gen_find_output_and_command_understood", "find_output_and_command",
+     ["Src_parser_find_output_and_command_ins", "Src_parser_find_output_and_command"]),
+    ("gen_parse_pre_process_line_understood", "parse_pre_process_line", ["Src_parser_parse_pre_process_line"]),
+    ("gen_parse_command_line_understood", "parse_command_line", ["Src_parser_parse_command_line"]),
+    ("gen_parse_line_understood", "parse_line", ["Src_parser_parse_line"]),
+    ("gen_parse_lines_understood", "parse_lines", ["Src_parser_parse_lines"]),
+]
+Check.SRC_TIES_BASE = {"parser": list(Check.SRC_TIES["parser"][4])}
+Check.SRC_TIES_PARTIAL = ("parser",)
+Check.SRC_TIES["parser"][4].extend(t for _f, _r, _ts in PARSER_REST_TIES for t in _ts)
+_source_tie_before_parser_rest = Check.source_tie
+
+
+def _source_tie_with_parser_rest(self, which):
+    ok = _source_tie_before_parser_rest(self, which)
+    if which != "parser":
+        return ok
+    try:
+        text = open(os.path.join(ROOT, "coq", "generated", "GenParserRest.v")).read()
+    except OSError:
+        text = ""
+    info = self.coverage.setdefault("source_translation", {})
+    base_active = bool(info.get("parser", {}).get("active"))
+    rest = {}
+    for flag, fn, thms in PARSER_REST_TIES:
+        what = "duckscript/src/parser.rs::%s" % fn
+        understood = re.search(r"Definition %s : bool := true\." % flag, text) is not None
+        if understood:
+            rest[fn] = {"active": True, "theorems": thms}
+            continue
+        if False:
+            why = ""
+        else:
+            m = re.search(r"\(\* NOT UNDERSTOOD %s: (.*?) \*\)" % re.escape(fn), text, re.S)
+            why = m.group(1) if m else "generated file missing"
+        rest[fn] = {"active": False, "reason": why}
+        names = ["DSP.SrcParser.%s" % t for t in thms]
+        self.obligations[:] = [o for o in self.obligations if o not in names]
+        self.discharged[:] = [o for o in self.discharged if o not in names]
+        if isinstance(info.get("parser", {}).get("theorems"), list):
+            info["parser"]["theorems"] = [t for t in info["parser"]["theorems"] if t not in thms]
+        print("NOTE: property=%s translation tie for %s is inactive on this tree (translator: %s); "
+              "the correspondence run is the only tie for it in this run" % (self.prop, what, why), flush=True)
+    info["parser_rest"] = {"file": "coq/generated/GenParserRest.v", "functions": rest,
+                           "meaning": "each listed function of parser.rs: the hand model function equals the mechanical "
+                                      "translation of the current source for all inputs (one flag per function)"}
+    return ok
+
+
+Check.source_tie = _source_tie_with_parser_rest
